@@ -307,13 +307,47 @@ theorem wake_by_ref_shape :
     WakeOrder.pollWakeByRef = [("wake", ""), ("notify", "if !self.awake.wake()")] := by
   decide
 
-/-- `poll_entries`: a NOTIFY completion without MORE re-arms (`NEED_PUSH_NOTIFIER`), and the eventfd is cleared;
+/-- `poll_entries`, ALL its calls on the notifier / the flag: a NOTIFY completion without MORE re-arms
+(`NEED_PUSH_NOTIFIER`) and the eventfd is cleared — nothing else; in particular the awake flag is not touched
+(`poll_entries` also runs on the overflow path of `push_raw`, outside `poll`: seed C03-a added a `set_awake` here).
 `arm_notifier` pushes only when the flag is set and clears it afterwards -/
 theorem notifier_shape :
-    WakeOrder.iourPollEntries.take 4 =
-      [("completion", ""), ("more", "for cqueue"), ("insert", "if !more(flags)"), ("clear", "for cqueue")] ∧
+    WakeOrder.iourPollEntries =
+      [("completion", ""), ("more", "for cqueue"), ("insert", "if !more(flags)"), ("clear", "for cqueue"),
+       ("more", "for cqueue"), ("remove", "else(more(flags))")] ∧
     WakeOrder.iourArmNotifier.map Prod.fst = ["contains", "push_raw", "?", "remove"] := by
   decide
+
+/-- `push_raw`: push; when the submission queue is full: `submit_auto`, then `poll_entries`, and retry — no call on
+the notifier or the flag -/
+theorem push_raw_shape :
+    WakeOrder.iourPushRaw.map Prod.fst = ["submission", "push", "sync", "submit_auto", "return", "poll_entries"] := by
+  decide
+
+/-- the model's overflow step is exactly that: the submission (`doSubmit`), then the reaping of a NOTIFY completion
+(`consume` + `clear` of `Driver::poll`), then the entry alone in the queue; flag, `needWait`, timeout, queues and ghost
+state are untouched -/
+theorem overflow_is_submit_then_reap (s : State) :
+    (overflowPush s).arm = (doSubmit s).arm ∧ (overflowPush s).xfd = (doSubmit s).xfd ∧
+    (overflowPush s).cq = false ∧ (overflowPush s).efd = (if (doSubmit s).cq then 0 else s.efd) ∧
+    (overflowPush s).sq = 1 ∧ (overflowPush s).flag = s.flag ∧ (overflowPush s).needWait = s.needWait ∧
+    (overflowPush s).zero = s.zero ∧ (overflowPush s).sync = s.sync ∧ (overflowPush s).hot = s.hot ∧
+    (overflowPush s).mainWoken = s.mainWoken ∧ (overflowPush s).rt = s.rt := by
+  simp [overflowPush, doSubmit]
+
+/-- an operation submitted from inside a poll (with or without overflow of the submission queue) changes neither
+the flag nor the coverage of the runtime thread nor the obligations: a NOTIFY completion reaped on that path leaves
+the NOTIFIED bit in place, so the next `reset` still reports it (`no_lost_wake_task` / `no_lost_wake_main` hold in the
+state after the step because it is reachable) -/
+theorem push_keeps_obligations (s s' : State) (h : rtStep s .push = some s') :
+    s'.flag = s.flag ∧ cov s' = cov s ∧ covM s' = covM s ∧ s'.mainWoken = s.mainWoken ∧ s'.woken = s.woken ∧
+    s'.sync = s.sync ∧ s'.hot = s.hot ∧ s'.rt = s.rt := by
+  unfold rtStep at h
+  repeat' split at h
+  all_goals (try simp only [Option.some.injEq, reduceCtorEq] at h)
+  all_goals (try subst h)
+  all_goals (try simp only [overflowPush])
+  all_goals (first | (simp_all [cov, covM, covOf]; done) | cases h)
 
 /-- `Remote::schedule`: start_scheduling, (coalesce / finished: finish, return), load shared (null: finish, return),
 pending.fetch_add, push loop [wake once, else cancelled? fetch_sub, finish, return, else yield], wake, finish.
